@@ -172,6 +172,32 @@ def binding_demo() -> tuple[int, int]:
         else:
             print(f"FAIL binding: {name} -> {got}, expected {want}")
             bad += 1
+    # the executions recorded from the repository's own tests: accepted as recorded, rejected when one field is changed
+    from . import suite
+    straces = [t for t in suite.as_traces(suite.record()) if t["events"]]
+
+    def sverdicts(trs):
+        return [v[0] for v in tlc.validate([{"init": t["init"], "events": t["events"]} for t in trs], full, shards=2)["verdicts"]]
+
+    accepted = sverdicts(straces).count("accept")
+    mutated = []
+    for t in straces:
+        t = copy.deepcopy(t)
+        e = t["events"][-1]
+        if e["wr"]:
+            e["wr"][0]["p"] += "x"          # a written payload altered
+        elif e["out"]["k"] == "yield":
+            e["out"]["m"]["p"] += "x"       # the yielded payload altered
+        elif e["out"]["k"] == "err":
+            e["out"]["k"], e["out"]["cls"] = "ok", ""   # the error swallowed
+        else:
+            continue
+        mutated.append(t)
+    rejected = sverdicts(mutated).count("reject")
+    for name, good in ((f"{len(straces)} executions recorded from the repository's tests -> {accepted} accepted", accepted == len(straces) and accepted > 100),
+                       (f"one observable altered in each of {len(mutated)} of them -> {rejected} rejected", rejected == len(mutated) and rejected > 100)):
+        print(("ok   " if good else "FAIL ") + "binding: " + name)
+        ok, bad = ok + good, bad + (not good)
     return ok, bad
 
 
